@@ -285,8 +285,13 @@ def r17_1(rep: Report, idx: Index, models: dict[str, Model], assoc, sites) -> No
                      file=sconstruct.split('::')[0])
     # association tables
     for tname, cols in assoc.items():
+        fk_on = bool(rep.extra.get('sqlite_foreign_keys_enforced'))
+        # a relationship with passive_deletes leaves the rows of its children to the database; while SQLite is not
+        # told to enforce foreign keys nothing deletes them
         used = [(m.cls, r.name) for m in models.values() for r in m.rels.values()
-                if r.secondary == tname]
+                if r.secondary == tname and (fk_on or not r.passive)]
+        passive = [(m.cls, r.name) for m in models.values() for r in m.rels.values()
+                   if r.secondary == tname and r.passive and not fk_on]
         for cname, fk in cols:
             construct = f'{MODELS_DIR}/mediafile_keys.py::{tname}.{cname}'
             ptab = fk.split('.')[0]
@@ -296,6 +301,13 @@ def r17_1(rep: Report, idx: Index, models: dict[str, Model], assoc, sites) -> No
             if any(c == parent.cls for c, _ in used):
                 rep.ok(rid, construct, f'-> {parent.cls}',
                        'association rows are managed through relationship(secondary=)')
+            elif any(c == parent.cls for c, _ in passive):
+                rn = next(r_ for c, r_ in passive if c == parent.cls)
+                rep.fail(rid, construct, f'-> {parent.cls}',
+                         f'{parent.cls}.{rn} is declared passive_deletes: the ORM no longer deletes the {tname} rows of a '
+                         f'deleted {parent.cls}, and the ON DELETE rule it relies on never runs because the application does not '
+                         'enable `PRAGMA foreign_keys` on its SQLite connections - the link rows stay, point at a primary key '
+                         'that the next inserted row re-uses, and re-indexing the file fails with an IntegrityError (HTTP 500)')
             else:
                 rep.fail(rid, construct, f'-> {parent.cls}',
                          f'{parent.cls} has no relationship(secondary={tname}); deleting it leaves '
@@ -963,6 +975,7 @@ def analyse(rep: Report) -> None:
     rep.rule('R17.8', 'bulk DELETE statements only on models that own nothing and are not referred to', floor=1)
     rep.rule('R17.9', 'the directory of an existing stream changes only while it owns no files', floor=1)
     rep.rule('R17.10', 'a row that is replaced is looked up by the value its replacement is created with', floor=1)
+    rep.rule('R17.11', 'a Blob row records the size of the file it names, measured after the file was closed (C13 R13.6)', floor=1)
     idx = Index(rep.repo)
     cg = CallGraph(idx)
     eff = Effects(idx, cg)
@@ -987,3 +1000,12 @@ def analyse(rep: Report) -> None:
     r17_8(rep, idx, models, assoc)
     r17_9(rep, idx)
     r17_10(rep)
+    # the size a Blob row records is the size of the file it names (C13's rule: taken after the writer closed it)
+    from ..core import lift
+    from . import c13 as _c13
+
+    def _run(sub):
+        sub.rule('R13.6', 'the stored length of a media file is taken from the file after its writer has closed it', floor=0)
+        _c13.stored_length(sub)
+    lift(rep, 'R17.11', 'C13', _run, ('R13.6',), 'dashlive/server/models/mediafile.py::modify_media_file',
+         'a Blob row records the size of the file it names')
